@@ -1,3 +1,3 @@
 #pragma once
 #include "c20x_eb.h"
-size_t g_ev_n; int g_ev_bad; size_t g_pub_bits; int g_pub_neg;
+size_t g_ev_n; int g_ev_bad; size_t g_pub_bits;
